@@ -1,9 +1,61 @@
-import Fpdec.Lemmas.Dom
+import Fpdec.Lemmas.Parse
 import Fpdec.Props.C06_Sites
 
-/-! # C06 — property theorems (under construction: see DESIGN.md section 6) -/
+/-!
+# C06 — Parsing accepts exactly the literal grammar and never yields a wrong value
+
+`from_str_spec`: for EVERY byte string shorter than 2^56 bytes, `Decimal::from_str` (same function behind
+`TryFrom<&str>` / `TryFrom<String>`) returns `Ok(d)` exactly when the reference parser `Spec.parseSpec` — one character at a
+time, unbounded integers, representability decided at the end — accepts, and then `d` has precisely the literal's digits as
+coefficient and `max(0, fraction length − exponent)` fractional digits; every other string gives `Err`, `Empty` only for the
+empty string; no panic, in any build profile.  Ingredients (all proved, no `bv_decide`): the two SWAR tricks
+(`swar_digit_test`, `swar_to_u64`), the saturating accumulation (`accum_coeff_spec`), exponent saturation never changing the verdict.
+
+Domain restriction: `s.length < 2^56`.  The exponent accumulator saturates at `isize::MAX / 100`; a literal whose *fraction*
+had more digits than that could compensate a saturated exponent.  Such a string (> 64 PiB) cannot exist in an address space.
+Not modelled: the `unsafe` slice operations are represented by the pattern matches that dominate them (`first()` returned
+`Some`, `len() >= 8`), so out-of-bounds reads are excluded by construction of the model and by the correspondence run (which
+would crash or diverge), not by a theorem about pointers.
+-/
 
 namespace Fpdec.Props.C06
 open Fpdec Fpdec.Model
+
+theorem swar_digit_test (bs : List Nat) (hlen : bs.length = 8) (hb : ∀ c ∈ bs, c < 256) :
+    chunkContains8Digits (leBytes bs) = true ↔ ∀ c ∈ bs, Spec.isDig c = true :=
+  chunkContains8Digits_iff bs hlen hb
+
+theorem swar_to_u64 (bs : List Nat) (hlen : bs.length = 8) (hd : ∀ c ∈ bs, Spec.isDig c = true) :
+    chunkToU64 (leBytes bs) = Spec.digitsVal bs :=
+  chunkToU64_val bs hlen hd
+
+theorem accum_coeff_spec (c : Nat) (s : List Nat) (hb : ∀ x ∈ s, x < 256) (hc : c < U128_MOD) :
+    accumCoeff c s =
+      (Nat.min (c * 10 ^ (Spec.spanDigits s).1.length + Spec.digitsVal (Spec.spanDigits s).1) (U128_MOD - 1),
+       (Spec.spanDigits s).2, (Spec.spanDigits s).1.length) :=
+  accumCoeff_spec c s hb hc
+
+/-- the parser against the grammar -/
+theorem from_str_spec (prof : Profile) (s : List Nat) (hb : ∀ c ∈ s, c < 256) (hlen : s.length < 2 ^ 56) :
+    match Spec.parseSpec s, fromStr prof s with
+    | .ok c p, .ok (.ok d) => d = ⟨c, p⟩
+    | .empty, .ok (.error e) => e = ParseErr.empty
+    | .bad, .ok (.error e) => e ≠ ParseErr.empty
+    | _, _ => False :=
+  fromStr_spec prof s hb hlen
+
+/-- no input makes the parser panic (corollary) -/
+theorem from_str_never_panics (prof : Profile) (s : List Nat) (hb : ∀ c ∈ s, c < 256) (hlen : s.length < 2 ^ 56) :
+    ∃ r, fromStr prof s = .ok r := by
+  have h := fromStr_spec prof s hb hlen
+  cases hr : fromStr prof s with
+  | ok r => exact ⟨r, rfl⟩
+  | panic k =>
+    rw [hr] at h
+    cases hp : Spec.parseSpec s <;> rw [hp] at h <;> exact absurd h (by simp)
+
+/-! ### non-vacuity: former defects D1–D5 are now theorems' instances -/
+example : Spec.parseSpec [49, 101, 48, 48, 49] = .ok 10 0 ∧ fromStr Profile.dev [49, 101, 48, 48, 49] = .ok (.ok ⟨10, 0⟩) := by
+  decide   -- "1e001"
 
 end Fpdec.Props.C06
